@@ -279,6 +279,10 @@ func (c *Ctx) doSplit(st *State, sv, sepv Value, n int) Value {
 		for _, sa := range c.splitRec(s, sep, n, &budget, c.tt.T, feas) {
 			alts = append(alts, Alt{sa.g, c.strSliceValue(st, sa.parts)})
 		}
+		if len(alts) == 0 {
+			// every alternative was pruned: the path itself is infeasible; keep a well-shaped value
+			return c.strSliceValue(st, []*Str{s})
+		}
 		return c.mkUnion(alts)
 	})
 }
